@@ -939,7 +939,25 @@ func (f *frame) havocLoop(l *loopInfo, st *State, n *node) {
 			st.heap[k] = Fresh("loop."+k, t.S)
 		}
 	}
-	// regions not yet touched before the loop but written inside: make sure they exist
+	// regions not yet touched before the loop but written inside: whichever of them is first read after the
+	// head gets a fresh value instead of the entry state's (State.region consults st.lazy)
+	if !precise {
+		var prefixes []string
+		if all {
+			prefixes = []string{""}
+		} else {
+			for r := range regions {
+				if r != "" {
+					prefixes = append(prefixes, r)
+				}
+			}
+			sort.Strings(prefixes)
+		}
+		for _, r := range prefixes {
+			lazySeq++
+			st.lazy = append(st.lazy, lazyHavoc{r, lazySeq})
+		}
+	}
 	nc := Fresh("clock", SInt)
 	x.assume(TTrue, Le(st.clock(), nc), "clock")
 	st.heap[clockName] = nc
